@@ -69,9 +69,10 @@ class BaseSliver(ABC):
         self.boot_script = None # string limited in length
 
     def set_type(self, resource_type):
-        if isinstance(resource_type, str):
-            # a type given by its name must name one of the known types of this kind of sliver
-            known = self.type_from_str(resource_type) if hasattr(self, 'type_from_str') else None
+        if resource_type is not None and hasattr(self, 'type_from_str'):
+            # whether given by name or as an enum member, it must be one of the known types of this kind of sliver
+            # (a NodeType is not a type of a component)
+            known = self.type_from_str(str(resource_type))
             if known is None:
                 raise ValueError(f'{resource_type} is not a valid type for {self.__class__.__name__}')
             resource_type = known
